@@ -35,6 +35,11 @@ structure XCfg where
   threadsSkipsVanished : Bool
   /-- threads(): `if hit_enoent: self._raise_if_not_alive()` -/
   threadsChecksAlive : Bool
+  /-- threads(): `ProcessLookupError` (ESRCH: the thread ended between `open` and `read`, or the
+      open itself raced) is in the `except (...)` tuple next to FileNotFoundError -/
+  threadsSkipsEsrch : Bool
+  /-- threads(): the flag starts as `hit_enoent = False` before the loop -/
+  threadsHitStartsFalse : Bool
 
 /-! ## `get_terminal_map()` and `terminal()` -/
 
@@ -132,7 +137,8 @@ def sortTids (x : XCfg) (listing : List Nat) : List Nat :=
 
 /-- what opening `/proc/<pid>/task/<tid>/stat` gives at the moment the loop reaches it -/
 inductive TaskFile
-  | vanished                -- FileNotFoundError / ProcessLookupError: the thread ended meanwhile
+  | vanished                -- FileNotFoundError (ENOENT): the thread's directory is gone when its stat file is opened
+  | esrch                   -- ProcessLookupError (ESRCH) from `open` or from `f.read()`: the thread ended meanwhile
   | content (b : Bytes)
   deriving DecidableEq, Repr
 
@@ -143,6 +149,10 @@ def threadsScan (cfg : Cfg) (x : XCfg) (tck : Nat) : List (Nat × TaskFile) → 
     if x.threadsSkipsVanished then
       (threadsScan cfg x tck rest).map fun p => (p.1, true)
     else .error .noSuchProcess
+  | (_, .esrch) :: rest =>
+    if x.threadsSkipsEsrch then
+      (threadsScan cfg x tck rest).map fun p => (p.1, true)
+    else .error .noSuchProcess
   | (tid, .content c) :: rest => do
     let t ← threadOne cfg tck tid c
     let p ← threadsScan cfg x tck rest
@@ -150,12 +160,14 @@ def threadsScan (cfg : Cfg) (x : XCfg) (tck : Nat) : List (Nat × TaskFile) → 
 
 /-- `threads()`: `listing` = `os.listdir(task)` in whatever order the OS gives, `files tid` = what
     reading that thread's stat file gives, `aliveAtEnd` = `/proc/<pid>` still exists when
-    `_raise_if_not_alive()` looks (FileNotFoundError there → NoSuchProcess). -/
+    `_raise_if_not_alive()` looks (FileNotFoundError there → NoSuchProcess); it looks only when
+    the flag is set, and the flag starts as False (fact `threadsHitStartsFalse`). -/
 def threadsCall (cfg : Cfg) (x : XCfg) (tck : Nat) (listing : List Nat) (files : Nat → TaskFile)
     (aliveAtEnd : Bool) : Res (List ThreadOut) :=
   match threadsScan cfg x tck ((sortTids x listing).map fun t => (t, files t)) with
   | .error e => .error e
   | .ok (ts, hit) =>
-    if hit && x.threadsChecksAlive && !aliveAtEnd then .error .noSuchProcess else .ok ts
+    if (hit || !x.threadsHitStartsFalse) && x.threadsChecksAlive && !aliveAtEnd then .error .noSuchProcess
+    else .ok ts
 
 end Psutil.C06
